@@ -39,3 +39,61 @@ let () =
       match v with
       | List [sh; s] -> Atom (if ShellDQ.admissibleb (shell_of sh) (cl (string_ s)) then "1" else "0")
       | _ -> raise (Shape "dqadm args"))
+
+(* ---- C04: lookup tables -------------------------------------------------------------------
+   tables <shell> <dfa> (<"text" "descr">...) ((poolidx <"text" "descr">...)...)
+     -> (ok (alltables (needs b*7) (commands ..) (states ..) (main <tables>) (subtrans ..) (csub ..)
+             (subwords (poolidx id <tables>)..)) (validorders 0|1))  | (panic "site") *)
+module Tables = Extracted.Tables
+module Dfa = Extracted.Dfa
+open Dfa_io
+
+let ord_of (v : t) : (char list * char list) list =
+  List.map (fun p -> match p with
+      | List [a; b] -> (cl (string_ a), cl (string_ b))
+      | _ -> raise (Shape "literal order entry")) (list_ v)
+
+let ord_subs_of (v : t) =
+  List.map (fun e -> match e with
+      | List (pi :: ps) -> (n_ pi, ord_of (List ps))
+      | _ -> raise (Shape "sub literal order")) (list_ v)
+
+let bit b = Atom (if b then "1" else "0")
+
+let of_needs (n : Tables.needs) : t =
+  List [Atom "needs"; bit n.Tables.n_subwords; bit n.Tables.n_top_cmd; bit n.Tables.n_sub_cmd;
+        bit n.Tables.n_top_compadd; bit n.Tables.n_sub_compadd; bit n.Tables.n_top_star; bit n.Tables.n_sub_star]
+
+let of_alltables (nd : Tables.needs) (a : Dfa.alltables) : t =
+  List [Atom "alltables"; of_needs nd;
+        List (Atom "commands" :: List.map ss a.Dfa.a_commands);
+        List (Atom "states" :: List.map sn a.Dfa.a_states);
+        List [Atom "main"; of_tables a.Dfa.a_main];
+        List (Atom "subtrans" :: List.map of_row a.Dfa.a_subtrans);
+        List [Atom "csub"; of_levels a.Dfa.a_csub];
+        List (Atom "subwords" :: List.map (fun ((pi, id), t) -> List [sn pi; sn id; of_tables t]) a.Dfa.a_subwords)]
+
+let res_to (f : 'a -> t) (r : (unit, 'a) Extracted.Prelude.outcome) : t =
+  match r with
+  | Extracted.Prelude.Ok a -> f a
+  | Extracted.Prelude.Err () -> List [Atom "err"]
+  | Extracted.Prelude.Panic s -> List [Atom "panic"; ss s]
+  | Extracted.Prelude.OutOfFuel -> List [Atom "outoffuel"]
+
+let () =
+  register "tables" (fun v ->
+      match v with
+      | List [sh; d; om; os] ->
+          let c = cdfa_of d in
+          let om = ord_of om and os = ord_subs_of os in
+          let valid = Tables.valid_orders c om os in
+          res_to (fun (nd, a) -> List [Atom "ok"; of_alltables nd a; List [Atom "validorders"; bit valid]])
+            (Tables.all_tables (shell_of sh) c om os)
+      | _ -> raise (Shape "tables args"))
+
+(* iso <tables> <tables> -> 1 | 0      Model.Tables.isomorphic_to *)
+let () =
+  register "iso" (fun v ->
+      match v with
+      | List [a; b] -> bit (Tables.isomorphic_to (tables_of a) (tables_of b))
+      | _ -> raise (Shape "iso args"))
